@@ -116,7 +116,7 @@ class T:
             ones = {8: '0xffu', 16: '0xffffu', 32: '0xffffffffu', 64: '0xffffffffffffffffull'}[self.bits]
             return ' && '.join('(AVM_L%d((%s).content, %d) == 0 || AVM_L%d((%s).content, %d) == %s)' % (
                 self.bits, e, i, self.bits, e, i, ones) for i in range(self.W))
-        kb = {'uint8_t': 8, 'uint16_t': 16, 'uint32_t': 32, 'uint64_t': 64}[self.repr]
+        kb = {'uint8_t': 8, 'uint16_t': 16, 'uint32_t': 32, 'uint64_t': 64, 'unsigned long long': 64}[self.repr]
         if self.W < kb:
             return '((((uint64_t)(%s).content) >> %d) == 0)' % (e, self.W)
         return '1'
